@@ -10,6 +10,8 @@ for res in sorted(glob.glob('/verif/work/seedres/*.txt')):
         pid=pid[:-2]; src='/tmp/seed2-%s'%pid
     elif pid.endswith('r3'):
         pid=pid[:-2]; src='/tmp/seed3-%s'%pid
+    elif pid.endswith('r4'):
+        pid=pid[:-2]; src='/tmp/seed4-%s'%pid
     kv={}
     for l in open(res):
         if '=' in l:
